@@ -207,6 +207,24 @@ CHECKS = {'C01': ('exploration',
          "The empty/absent id and '.' are checked for confinement only; requests with `context` use the weaker 'stored = received + reply' check; symlinks inside the root are not created.",
          'DESIGN.md 4/C20')}
 
+
+# additions of round 6, appended to the level text
+ROUND6 = {
+    "C01": "overlapping conversations on one instance (asyncio tasks on a virtual loop, rail actions and LLM calls with drawn latencies), two user messages in one call (open finding C01-F42 for config-style rails).",
+    "C02": "LLM completions with $-tokens naming planted context variables / run-time context keys, compared on the whole text (the reply carries LLM text exactly as the rails released it).",
+    "C03": "actions registered as configured instances that fail once and are needed again in a later turn.",
+    "C04": "start arguments of actions held in flow variables (found and fixed C04-F39).",
+    "C05": "structured parameters (dict / list / set / action start arguments) mentioned with a different number of members, with a nested score model.",
+    "C07": "member flows that finish on the same event under every tie-break outcome, a group statement directly followed by a second one that re-awaits the loser.",
+    "C08": "wide signatures (up to 14 parameters, more than ten positional arguments), named arguments written before positional ones in bracket-less calls.",
+    "C09": "main flows that end (and are re-armed) or carry the faulty action themselves; the thorough tier found and fixed C09-F40.",
+    "C10": "meta-tag hierarchies (a tagged action flow finishing under an ancestor whose intent tag cannot be evaluated); open finding C10-F41.",
+    "C11": "references to ended flows read after the cut, an unfinished action of a discarded flow instance (found and fixed C11-F38), dict-valued action arguments matched by a literal.",
+    "C12": "flows added to a running runtime through AddFlowsAction, a Colang 1.0 when block inside a while body with loop exits around it.",
+    "C16": "the options handed over as new / kept dict or GenerationOptions object, reused across calls of different shapes.",
+    "C17": "generated values that are container literals with an unholdable element in any slot incl. dict keys.",
+}
+
 TITLES = {}
 with open(os.path.join(HERE, "properties.jsonl")) as f:
     for line in f:
@@ -227,6 +245,8 @@ def main():
     checks = []
     for pid in sorted(CHECKS):
         cat, tech, text, note, ref = CHECKS[pid]
+        if pid in ROUND6:
+            text = text.rstrip() + " Since round 6 also: " + ROUND6[pid]
         checks.append(
             {
                 "property_id": pid,
